@@ -162,6 +162,52 @@ func (ts *Typestate) FlagStatus(ph *ssa.Phi, val bool, a *ssa.Alloc) (EnumSet, b
 	return s, ok
 }
 
+// constFlagValues: ph is a string / integer variable all of whose assignments are constants (directly or through other
+// such φ-nodes): the distinct constants (at most 8), else nil.
+func constFlagValues(ph *ssa.Phi) []constant.Value {
+	bt, ok := ph.Type().Underlying().(*types.Basic)
+	if !ok || bt.Info()&(types.IsString|types.IsInteger) == 0 {
+		return nil
+	}
+	var vals []constant.Value
+	seen := map[*ssa.Phi]bool{}
+	var walk func(p *ssa.Phi) bool
+	walk = func(p *ssa.Phi) bool {
+		if seen[p] {
+			return true
+		}
+		seen[p] = true
+		for _, e := range p.Edges {
+			switch x := e.(type) {
+			case *ssa.Const:
+				if x.Value == nil {
+					return false
+				}
+				dup := false
+				for _, v := range vals {
+					if constant.Compare(v, token.EQL, x.Value) {
+						dup = true
+					}
+				}
+				if !dup {
+					vals = append(vals, x.Value)
+				}
+			case *ssa.Phi:
+				if !walk(x) {
+					return false
+				}
+			default:
+				return false
+			}
+		}
+		return true
+	}
+	if !walk(ph) || len(vals) < 2 || len(vals) > 8 {
+		return nil
+	}
+	return vals
+}
+
 func isFieldAddrOf(addr ssa.Value, structT *types.Named, field string) *ssa.Alloc {
 	fa, ok := addr.(*ssa.FieldAddr)
 	if !ok {
@@ -247,6 +293,7 @@ func (p *Prog) analyzeTypestate(fn *ssa.Function, structT *types.Named, field st
 	// `if ok && !other` is followed only by the states in which the flags have those values, and the
 	// refinement made when the flag was computed (status ∈ {X, Y} where ok is true) is still attached.
 	var flags []*ssa.Phi
+	constVals := map[*ssa.Phi][]constant.Value{}
 	flagIdx := map[*ssa.Phi]int{}
 	flagsOf := map[*ssa.BasicBlock][]*ssa.Phi{}
 	for _, b := range fn.Blocks {
@@ -259,8 +306,52 @@ func (p *Prog) analyzeTypestate(fn *ssa.Function, structT *types.Named, field st
 				flagIdx[ph] = len(flags)
 				flags = append(flags, ph)
 				flagsOf[b] = append(flagsOf[b], ph)
+			} else if vals := constFlagValues(ph); vals != nil && len(flags) < 12 {
+				// a variable that only ever holds one of a few constants (`action := ""; … action = "Lock"`) names the
+				// branch that assigned it: it is a flag with more than two values
+				flagIdx[ph] = len(flags)
+				flags = append(flags, ph)
+				flagsOf[b] = append(flagsOf[b], ph)
+				constVals[ph] = vals
 			}
 		}
+	}
+	constIdx := func(ph *ssa.Phi, c *ssa.Const) byte {
+		for i, v := range constVals[ph] {
+			if c.Value != nil && constant.Compare(v, token.EQL, c.Value) {
+				return byte('a' + i)
+			}
+		}
+		return 0
+	}
+	// constFlagOfCond: the condition compares a constant-valued flag with a constant: (flag, the constant's letter, true when the
+	// condition holds for equality)
+	constFlagOfCond := func(c ssa.Value) (*ssa.Phi, byte, bool) {
+		eq := true
+		for {
+			if u, ok := c.(*ssa.UnOp); ok && u.Op == token.NOT {
+				c, eq = u.X, !eq
+				continue
+			}
+			break
+		}
+		bo, ok := c.(*ssa.BinOp)
+		if !ok || (bo.Op != token.EQL && bo.Op != token.NEQ) {
+			return nil, 0, false
+		}
+		if bo.Op == token.NEQ {
+			eq = !eq
+		}
+		x, y := bo.X, bo.Y
+		if _, isC := x.(*ssa.Const); isC {
+			x, y = y, x
+		}
+		ph, isPh := x.(*ssa.Phi)
+		k, isC := y.(*ssa.Const)
+		if !isPh || !isC || constVals[ph] == nil {
+			return nil, 0, false
+		}
+		return ph, constIdx(ph, k), eq
 	}
 	blank := strings.Repeat("?", len(flags))
 	parts := map[*ssa.BasicBlock]map[string]*tsState{}
@@ -321,6 +412,19 @@ func (p *Prog) analyzeTypestate(fn *ssa.Function, structT *types.Named, field st
 				default:
 					return nil // this valuation takes the other branch
 				}
+			} else if cph, letter, eq := constFlagOfCond(iff.Cond); cph != nil {
+				takenEq := (i == 0) == eq // this successor is the one on which flag == constant
+				switch cur := key[flagIdx[cph]]; {
+				case cur == '?':
+					if takenEq {
+						if letter == 0 {
+							return nil // the flag never holds that constant
+						}
+						key = setFlag(key, cph, letter)
+					}
+				case (cur == letter) != takenEq:
+					return nil // this valuation takes the other branch
+				}
 			} else {
 				ts.refine(iff.Cond, i == 0, out)
 			}
@@ -340,6 +444,28 @@ func (p *Prog) analyzeTypestate(fn *ssa.Function, structT *types.Named, field st
 			e := ph.Edges[k]
 			var next []outPart
 			for _, r := range res {
+				if constVals[ph] != nil {
+					v := byte('?')
+					switch x := e.(type) {
+					case *ssa.Const:
+						if l := constIdx(ph, x); l != 0 {
+							v = l
+						}
+					case *ssa.Phi:
+						if _, isFlag := flagIdx[x]; isFlag && constVals[x] != nil && r.key[flagIdx[x]] != '?' {
+							// the same constant, under the numbering of this flag
+							if i := int(r.key[flagIdx[x]] - 'a'); i >= 0 && i < len(constVals[x]) {
+								for j, cv := range constVals[ph] {
+									if constant.Compare(cv, token.EQL, constVals[x][i]) {
+										v = byte('a' + j)
+									}
+								}
+							}
+						}
+					}
+					next = append(next, outPart{setFlag(r.key, ph, v), r.st})
+					continue
+				}
 				switch x := e.(type) {
 				case *ssa.Const:
 					v := byte('F')
@@ -435,6 +561,9 @@ func (p *Prog) analyzeTypestate(fn *ssa.Function, structT *types.Named, field st
 	}
 	ts.flagState = map[*ssa.Phi]map[bool]*tsState{}
 	for _, ph := range flags {
+		if constVals[ph] != nil {
+			continue
+		}
 		m := map[bool]*tsState{}
 		for key, st := range parts[ph.Block()] {
 			var v bool
